@@ -96,3 +96,35 @@ func oracleC11(c PipeCase) (o report.Outcome) {
 }
 
 func TestC11(t *testing.T) { report.Run(t, specC11, genC11, oracleC11) }
+
+// ---------------------------------------------------------------------------------------------------------------
+// the same pipeline with REAL GeoPackage targets (they run concurrently, one goroutine per target), under the race detector
+
+type C11GpkgCase struct {
+	Targets  []int `json:"targets"`
+	N        int   `json:"n"`
+	PageSize int   `json:"pagesize"`
+	NCols    int   `json:"ncols"`
+	Procs    int   `json:"procs"`
+}
+
+var specC11Gpkg = report.Spec{Property: "C11", Check: "C11Gpkg",
+	Rule: "processing.ProcessFeatures with a fake source (feature columns built by append like the real reader, so the slices have spare capacity), a fake snapping function returning a marker polygon per tile matrix, and 2-5 REAL gpkg.TargetGeopackage targets on scratch files, 1-60 features, page size 1-20, GOMAXPROCS in {2,4,16}; run under the race detector (halt_on_error) in both tiers. " +
+		"Oracle: no race report; after return every target file holds every feature once, in order, with its own attributes and the geometry computed for ITS tile matrix. Non-trivial: >= 2 targets and >= 5 features. Distinct by case content.",
+	Assumptions: []string{"the verif-tagged stub driver stands in for SpatiaLite"}}
+
+func genC11Gpkg(t *rapid.T) C11GpkgCase {
+	c := C11GpkgCase{Targets: drawTargets(t)}
+	if len(c.Targets) < 2 {
+		c.Targets = append(c.Targets, (c.Targets[0]+1)%25)
+	}
+	c.N = rapid.IntRange(1, 60).Draw(t, "n")
+	c.PageSize = rapid.IntRange(1, 20).Draw(t, "pagesize")
+	c.NCols = rapid.IntRange(0, 6).Draw(t, "ncols")
+	c.Procs = rapid.SampledFrom([]int{2, 4, 16}).Draw(t, "procs")
+	return c
+}
+
+func TestC11Gpkg(t *testing.T) {
+	report.Run(t, specC11Gpkg, genC11Gpkg, oracleC11Gpkg)
+}
